@@ -6,9 +6,13 @@
  * file, you can obtain one at https://mozilla.org/MPL/2.0/.
  */
 
+#include <algorithm>
 #include <iostream>
 
 #include "writer.h"
+
+// Upper bound for the on-stack buffer receiving compressed data in one compression step
+static constexpr std::size_t COMPRESSION_BUFFER_SIZE = 65536;
 
 void CDNS::GzipCborOutputWriter::write(const char* p, std::size_t size)
 {
@@ -48,8 +52,11 @@ void CDNS::GzipCborOutputWriter::close()
 
 int CDNS::GzipCborOutputWriter::write_gzip(std::size_t in_size, int action)
 {
-    std::size_t size = in_size + in_size / 3 + 128;
-    uint8_t buff[size];
+    // Bounded output buffer: the size of a chunk given by the caller must not size a stack array.
+    // Output that doesn't fit is produced by the following calls (callers loop until all input
+    // is consumed / the stream is finished).
+    uint8_t buff[COMPRESSION_BUFFER_SIZE];
+    std::size_t size = std::min(in_size + in_size / 3 + 128, sizeof(buff));
 
     // Set output buffer
     m_gzip.next_out = buff;
@@ -58,7 +65,7 @@ int CDNS::GzipCborOutputWriter::write_gzip(std::size_t in_size, int action)
     // Compress data to output
     int ret = deflate(&m_gzip, action);
     if (ret == Z_OK || ret == Z_STREAM_END)
-        m_writer->write(reinterpret_cast<const char*>(buff), sizeof(buff) - m_gzip.avail_out);
+        m_writer->write(reinterpret_cast<const char*>(buff), size - m_gzip.avail_out);
     else
         throw CborOutputException("Couldn't write to output file!");
 
@@ -101,8 +108,11 @@ void CDNS::XzCborOutputWriter::close()
 
 lzma_ret CDNS::XzCborOutputWriter::write_lzma(std::size_t in_size, lzma_action action)
 {
-    std::size_t size = in_size + in_size / 3 + 128;
-    uint8_t buff[size];
+    // Bounded output buffer: the size of a chunk given by the caller must not size a stack array.
+    // Output that doesn't fit is produced by the following calls (callers loop until all input
+    // is consumed / the stream is finished).
+    uint8_t buff[COMPRESSION_BUFFER_SIZE];
+    std::size_t size = std::min(in_size + in_size / 3 + 128, sizeof(buff));
 
     // Set output buffer
     m_lzma.next_out = buff;
@@ -111,7 +121,7 @@ lzma_ret CDNS::XzCborOutputWriter::write_lzma(std::size_t in_size, lzma_action a
     // Compress data to output
     lzma_ret ret = lzma_code(&m_lzma, action);
     if (ret == LZMA_OK || ret == LZMA_STREAM_END)
-        m_writer->write(reinterpret_cast<const char*>(buff), sizeof(buff) - m_lzma.avail_out);
+        m_writer->write(reinterpret_cast<const char*>(buff), size - m_lzma.avail_out);
     else
         throw CborOutputException("Couldn't write to output file!");
 
